@@ -626,9 +626,18 @@ func (e *Engine) validateSamples(results []*EntryResult) (int, []string) {
 	validated := 0
 	var bad []string
 	seen := 0
+	var failedIDs []string
 	for _, line := range strings.Split(string(out), "\n") {
+		if strings.HasPrefix(line, "VERIF-REPLAY: assert-failed ") {
+			failedIDs = append(failedIDs, strings.TrimPrefix(line, "VERIF-REPLAY: assert-failed "))
+			continue
+		}
 		if !strings.HasPrefix(line, "VERIF-SAMPLE ") {
 			continue
+		}
+		if len(failedIDs) > 0 {
+			line += " [" + strings.Join(failedIDs, ", ") + "]"
+			failedIDs = nil
 		}
 		seen++
 		switch {
